@@ -144,7 +144,7 @@ theorem objLink_of_logic {m : Model (Ext K)} {b : BoundsMap (Ext K)} {d : List (
     (h : linearizeWith m b d = .ok lm) : ObjLink m lm := by
   obtain ⟨_, hsound, hcomplete⟩ := linearizeWith_logic hm hdom.nodup hbox h
   refine ⟨?_, ?_, ?_⟩
-  · intro ρ hs; exact hm.obj.defd ρ (hdom.sound ρ hs)
+  · intro ρ hs; exact hm.obj_defined h ρ (hdom.sound ρ hs)
   · intro ρ' hf
     obtain ⟨hd, hc, hobj⟩ := hsound ρ' hf
     exact ⟨(srcFeasible_iff m ρ').mpr ⟨hc, hdom.tight ρ' hd⟩, hobj⟩
